@@ -46,6 +46,14 @@ Theorem C03_cutoff_after_update : forall st tb b,
 Proof. exact cutoff_after_update. Qed.
 Print Assumptions C03_cutoff_after_update.
 
+(* update_predict does not move the cutoff: the following predict is labelled from the cutoff before
+   the call (the correspondence run encodes the step as one that leaves the cutoff in place) *)
+Theorem C03_cutoff_after_update_predict : forall st seen h,
+  cutoff (update_predict_state st seen) = cutoff st /\
+  pred_index (update_predict_state st seen) h = pred_index st h.
+Proof. intros st seen h. split; reflexivity. Qed.
+Print Assumptions C03_cutoff_after_update_predict.
+
 (* after any history of updates, and the reported trace has one cutoff per step *)
 Theorem C03_cutoff_after_history : forall s ups,
   cutoff (run_state s ups) = fold_left next_cutoff ups (t0 s + zlen (ys s) - 1) /\
